@@ -189,7 +189,7 @@ impl<L: Language, N: Analysis<L>> EGraph<L, N> {
         }
         */
 
-        self.update_analysis(&sh, i);
+        let analysis_changed = self.update_analysis(&sh, i);
 
         if let PendingType::OnlyAnalysis = pending_ty {
             return;
@@ -246,6 +246,15 @@ impl<L: Language, N: Analysis<L>> EGraph<L, N> {
         let bij = bij.compose(&m);
         let t = (sh, bij);
         self.raw_add_to_class(i.id, t.clone(), src_id);
+        // If the datum of the class changed above and this e-node mentions its own class (possibly
+        // through a now dead id, in which case it was not listed in the usages of the class), its
+        // own analysis value is out of date again: re-make it.
+        let self_referential = analysis_changed && t.0.ids().contains(&i.id);
+        let requeued = match (requeued, self_referential) {
+            (Some(ty), true) => Some(ty.merge(PendingType::OnlyAnalysis)),
+            (None, true) => Some(PendingType::OnlyAnalysis),
+            (x, false) => x,
+        };
         if let Some(ty) = requeued {
             let v = self.pending.entry(t.0.clone()).or_insert(ty);
             *v = v.merge(ty);
@@ -254,7 +263,8 @@ impl<L: Language, N: Analysis<L>> EGraph<L, N> {
         self.determine_self_symmetries(src_id);
     }
 
-    fn update_analysis(&mut self, sh: &L, i: Id) {
+    // returns whether the datum of the class changed.
+    fn update_analysis(&mut self, sh: &L, i: Id) -> bool {
         let v = N::make(self, sh);
 
         let c = self.classes.get_mut(&i).unwrap();
@@ -265,6 +275,9 @@ impl<L: Language, N: Analysis<L>> EGraph<L, N> {
         if new != old {
             self.modify_queue.push(i);
             self.touched_class(i, PendingType::OnlyAnalysis);
+            true
+        } else {
+            false
         }
     }
 
